@@ -19,6 +19,7 @@ type Writer struct {
 	w     *bufio.Writer
 	lines int
 	Scns  int
+	Sync  bool // flush after every scenario (crash isolation)
 }
 
 func NewWriter(path string) (*Writer, error) {
@@ -45,6 +46,9 @@ func (w *Writer) WriteScenario(evs []Event) error {
 	}
 	w.lines += len(evs)
 	w.Scns++
+	if w.Sync {
+		return w.w.Flush()
+	}
 	return nil
 }
 
